@@ -288,16 +288,52 @@ def ob_mc_combine(tier="quick"):
     return explore(body, _opts(tier))
 
 
+def _exh_ok(p, var, kind):
+    """z3 Bool: the cache flag `kind` for the expression `var` is TRUE of piece p's cached models: eval - every feasible value of var is the
+    value of var in some cached model; max / min - some cached model attains the largest / smallest feasible value"""
+    feas = {v: z3.Or(*[z3.Extract(i, i, p.table) == 1 for i in range(NA) if _assign_bits(i)[var] == v]) for v in (0, 1)}
+    have = {v: any(m.model.get(var) == v for m in p._models) for v in (0, 1)}
+    if kind == "eval":
+        return z3.And(*[z3.Implies(feas[v], z3.BoolVal(have[v])) for v in (0, 1)])
+    hi, lo = (1, 0) if kind == "max" else (0, 1)
+    return z3.And(z3.Implies(feas[hi], z3.BoolVal(have[hi])), z3.Implies(z3.And(z3.Not(feas[hi]), feas[lo]), z3.BoolVal(have[lo])))
+
+
+EXH = {"eval": "_eval_exhausted", "max": "_max_exhausted", "min": "_min_exhausted"}
+
+
 def ob_mc_split(tier="quick"):
+    """ModelCacheMixin.split in isolation.  `super().split()` is the contract of ConstrainedFrontend.split: independent pieces whose
+    conjunction is the original - built with blank_copy() + add(), i.e. THROUGH the piece's own _add, so a piece arrives with whatever cache
+    state _add leaves (the trivial-model optimisation caches a model and marks the variable exhausted).  The contract therefore returns the
+    pieces in ANY CONSISTENT cache state (0..1 valid models; each exhausted flag only if it is true of those models); the receiver has 0..2
+    valid models.  Post: every cached model of a piece satisfies the piece and mentions only its variables, and every exhausted flag of a piece
+    is still true of the piece's cached models."""
     ns = loader.load(MC_PATH, "claripy.frontend.mixin.model_cache_mixin")
     MCM, MC = ns["ModelCacheMixin"], ns["ModelCache"]
     proxies.set_iw(16)
+    PV = [("p0", ["a"]), ("p1", ["b", "c"])]
 
     class Base_(TSolver):
         def split(self):
-            # contract of ConstrainedFrontend.split (proved above): independent pieces whose conjunction is the original.  Here: the
-            # pieces are over {a} and {b, c}; the original table is the product of two tables
-            return [H("p0", {"a"}, table=self.t0), H("p1", {"b", "c"}, table=self.t1)]
+            c = cur()
+            out = []
+            for (name, vs), tab in zip(PV, (self.t0, self.t1)):
+                p = H(name, set(vs), table=tab)
+                if c.choose([True, True], f"{name}-has-model"):
+                    model = {k: c.choose([True, True], f"{name}-m[{k}]") for k in vs}
+                    c.assume(p.holds(model))
+                    p._models.add(MC(model))
+                for kind, attr in EXH.items():
+                    d = {}
+                    if c.choose([True, True], f"{name}-{kind}-exhausted"):
+                        c.assume(_exh_ok(p, vs[0], kind))           # consistent on arrival
+                        d[vs[0]] = vs[0]
+                    setattr(p, attr, d)
+                out.append(p)
+            if not c.path_feasible():
+                raise PathEnd()
+            return out
 
     class H(MCM, Base_):
         def __init__(self, *a, **k):
@@ -308,12 +344,14 @@ def ob_mc_split(tier="quick"):
         p1 = TSolver("t1", {"b", "c"})
         s = H("s", {"a", "b", "c"}, table=p0.table & p1.table)
         s.t0, s.t1 = p0.table, p1.table
-        for j in range(1 + c.choose([True, True], "n-models")):
+        nm = c.choose([True, True, True], "n-models")
+        for j in range(nm):
             model = {k: c.choose([True, True], f"m{j}[{k}]") for k in POOL}
             c.assume(s.holds(model))
             s._models.add(MC(model))
         if not c.path_feasible():
             raise PathEnd()
+        c.describers.append(lambda m: {"receiver_models": [dict(x.model) for x in s._models]})
         label = "ModelCacheMixin.split"
         try:
             pieces = s.split()
@@ -322,9 +360,62 @@ def ob_mc_split(tier="quick"):
         except Exception as ex:  # noqa
             c.fail(label + "/raises", f"{type(ex).__name__}: {ex}", kind="raises")
             return "raised"
-        for p in pieces:
+        for p, (name, vs) in zip(pieces, PV):
             for m in p._models:
                 c.check(label + "/cached-models-satisfy-constraints", p.holds(m.model), f"a cached model of a piece ({m.model}) does not satisfy the piece's constraints")
                 c.check(label + "/models-over-own-variables", set(m.model) <= p.variables, "a cached model of a piece mentions a variable of another piece")
-        return "split"
-    return explore(body, _opts(tier))
+            for kind, attr in EXH.items():
+                if vs[0] in getattr(p, attr):
+                    c.check(label + f"/{kind}-exhausted-flag-true-of-cached-models", _exh_ok(p, vs[0], kind),
+                            f"piece {name}: {attr} still lists {vs[0]} but the piece's cached models {[dict(m.model) for m in p._models]} do not realise "
+                            f"{'every feasible value' if kind == 'eval' else 'the ' + kind + 'imum'} of it: the next {kind}() is answered from the cache with a wrong / empty result")
+        return f"split[{nm}]"
+    return explore(body, dict(_opts(tier), replay=replay_mc_split))
+
+
+def replay_mc_split(failure):
+    """native: a real Solver whose constraints have the counter-model's two truth tables (a piece over {a} that pins a to one value is written
+    `a == v`, which is what makes _add cache the trivial model), the receiver's models cached by a satisfiable() call when the counter-model has
+    some; split(); every piece must answer eval / min / max like a fresh solver over the same constraints"""
+    import claripy
+    w = failure.get("witness") or {}
+    t0, t1 = w.get("table_t0"), w.get("table_t1")
+    if t0 is None or t1 is None:
+        return {"reproduced": False, "text": "no tables in the counter-model"}
+    vs = {k: claripy.BVS(k, 1, explicit_name=True) for k in POOL}
+    sat0 = sorted({_assign_bits(i)["a"] for i in range(NA) if (t0 >> i) & 1})
+    sat1 = sorted({(_assign_bits(i)["b"], _assign_bits(i)["c"]) for i in range(NA) if (t1 >> i) & 1})
+    cons = []
+    if len(sat0) == 1:
+        cons.append(vs["a"] == sat0[0])
+    elif not sat0:
+        cons.append(claripy.And(vs["a"] == 0, vs["a"] == 1))
+    else:
+        cons.append(claripy.Or(vs["a"] == 0, vs["a"] == 1))
+    cons.append(claripy.Or(*[claripy.And(vs["b"] == x, vs["c"] == y) for x, y in sat1]) if sat1 else claripy.And(vs["b"] == 0, vs["b"] == 1))
+    texts = []
+    for warm in ([False, True] if w.get("receiver_models") else [False]):
+        s = claripy.Solver()
+        s.add(cons)
+        if warm:
+            try:
+                s.satisfiable()
+            except Exception:  # noqa
+                pass
+        for piece in s.split():
+            fresh = claripy.Solver()
+            fresh.add(list(piece.constraints))
+            for v in sorted(piece.variables):
+                e = vs[v]
+                for what, f in (("eval", lambda z: tuple(sorted(z.eval(e, 4)))), ("min", lambda z: z.min(e)), ("max", lambda z: z.max(e))):
+                    def run(z):
+                        try:
+                            return f(z)
+                        except claripy.errors.UnsatError:
+                            return "UnsatError"
+                    got, want = run(piece), run(fresh)
+                    if got != want:
+                        texts.append(f"Solver().add({cons!r}){'; satisfiable()' if warm else ''}; the piece {piece.constraints!r} of split() answers {what}({v}) = {got!r}, a fresh solver with the same constraints answers {want!r}")
+    if texts:
+        return {"reproduced": True, "text": texts[0]}
+    return {"reproduced": False, "text": "the real Solver.split() pieces answer eval/min/max like fresh solvers for these tables"}
